@@ -18,11 +18,14 @@ RL3 = '{{}, {"r1"}, {"r1", "r2"}}'
 RL4 = '{{}, {"r1"}, {"r2"}, {"r1", "r2"}}'
 
 
-def conf(n, depth, subs, d, rl=RL3, sample=0, odd=True):
-    # the runs over pairs / triples of directives leave out the placements that cover nothing and switch statements
+def conf(n, depth, subs, d, rl=RL3, sample=0, odd=True, decl=None):
+    # the runs over pairs / triples of directives leave out the placements that cover nothing, switch statements and
+    # (unless decl=True) the sites whose diagnostic is raised by a later pass (declare local, unused acl)
+    if decl is None:
+        decl = odd
     return {"MaxStmts": str(n), "MaxDepth": str(depth), "MaxSubs": str(subs), "MaxDir": str(d),
             "RuleLists": rl, "Sample": str(sample), "Odd": "TRUE" if odd else "FALSE",
-            "Switch": "TRUE" if odd else "FALSE"}
+            "Switch": "TRUE" if odd else "FALSE", "Decl": "TRUE" if decl else "FALSE"}
 
 
 def run(ctx):
@@ -52,7 +55,10 @@ def run(ctx):
         return
 
     if quick:
-        runs = [("one-directive", conf(2, 1, 2, 1), None),
+        runs = [("one-directive", conf(2, 1, 2, 1, decl=False), None),
+                ("later-pass-sites", conf(2, 1, 1, 1), None),
+                ("later-pass-sites-pairs", conf(2, 0, 1, 2, RL2, odd=False, decl=True), None),
+                ("later-pass-sites-2subs", conf(1, 0, 2, 2, RL2, odd=False, decl=True), None),
                 ("two-directives", conf(2, 1, 1, 2, RL2, odd=False), None),
                 ("deep-flat", conf(3, 0, 1, 3, RL2, odd=False), None),
                 ("two-subs-flat", conf(2, 0, 2, 2, RL2, odd=False), None),
@@ -61,6 +67,7 @@ def run(ctx):
     else:
         runs = [("one-directive", conf(3, 2, 1, 1), "coverage"),
                 ("one-directive-2subs", conf(2, 1, 2, 1), None),
+                ("later-pass-sites-pairs", conf(2, 1, 2, 2, RL2, odd=False, decl=True), None),
                 ("two-directives-2subs", conf(2, 1, 2, 2, RL2, odd=False), None),
                 ("two-directives-nested", conf(2, 2, 1, 2, RL3, odd=False), None),
                 ("deep-flat", conf(4, 0, 1, 3, RL2, odd=False), None),
@@ -75,7 +82,7 @@ def run(ctx):
         if m.behaviours == 0:
             raise MachineryFault("Ignore.tla (%s) emitted no behaviour" % tag)
         if cov:
-            dead = [a for a in m.coverage_zero if a in ("SubOpen", "SubSkip", "SubClose", "SwOpen", "SwClose", "Stmt", "Trail", "IfOpen", "Else", "Elif", "IfClose", "Place")]
+            dead = [a for a in m.coverage_zero if a in ("RootDecl", "PostPass", "SubOpen", "SubSkip", "SubClose", "SwOpen", "SwClose", "Stmt", "Trail", "IfOpen", "Else", "Elif", "IfClose", "Place")]
             if dead:
                 raise MachineryFault("Ignore.tla actions never taken: %s" % dead)
         ctx.notes.setdefault("programs_by_run", {})[tag] = m.behaviours
@@ -87,14 +94,16 @@ def run(ctx):
     canary = None
     for line in wlint.iter_lines(beh_files[:1]):
         b = json.loads(line)
-        if b["dirs"] and not b["silent"] and b["req"] and len(b["req"]) < len(b["all"]):
+        # a program WITHOUT directives: every pair is required and reported whatever is wrong with the directive
+        # handling, so the corrupted expectation cannot coincide with a defect of the tree under test
+        if not b["dirs"] and not b["silent"] and len(b["req"]) >= 2:
             canary = b
             break
     if canary is None:
         raise MachineryFault("no behaviour to derive a canary from")
     c1 = json.loads(json.dumps(canary)); c1["id"] = "canary-req-dropped"; c1["req"] = c1["req"][1:]
     c2 = json.loads(json.dumps(canary)); c2["id"] = "canary-mech-extra"
-    c2["mech"] = c2["all"]
+    c2["mech"] = c2["all"][1:]
     canaries = {"canary-req-dropped": "mismatch", "canary-mech-extra": "drift"}
 
     def lines():
